@@ -4,11 +4,14 @@
             // success: the coded body's own response, plus the declared headers (each REPLACING what the body's
             // response had under that name), then the explicit headers (each name REPLACING everything before)
             r is Ok ==> to_map_spec(self.structured_headers) is Some && all_legal(to_map_spec(self.structured_headers)->Some_0)
-                && (exists|base: Response| #![trigger base.hdrs]
-                    r->Ok_0.status == base.status && r->Ok_0.body == base.body
-                    && hm_view(r->Ok_0.hdrs) == hm_extend(
-                            insert_all(hm_view(base.hdrs), declared(to_map_spec(self.structured_headers)->Some_0)),
-                            hm_view(self.other_headers))), // @declared_headers_sent_then_explicit_ones_override
+                && body_conv(self.body) is Ok
+                && r->Ok_0.status == body_conv(self.body)->Ok_0.status && r->Ok_0.body == body_conv(self.body)->Ok_0.body
+                && hm_view(r->Ok_0.hdrs) == hm_extend(
+                        insert_all(hm_view(body_conv(self.body)->Ok_0.hdrs), declared(to_map_spec(self.structured_headers)->Some_0)),
+                        hm_view(self.other_headers)), // @declared_headers_sent_then_explicit_ones_override
+            // "declared response headers ARE sent": legal declared headers on a body that converts are never refused
+            body_conv(self.body) is Ok && to_map_spec(self.structured_headers) is Some
+                && all_legal(to_map_spec(self.structured_headers)->Some_0) ==> r is Ok, // @legal_declared_headers_are_sent_not_refused
             // a declared header that is not a legal header name/value is refused with an error instead of being sent
             to_map_spec(self.structured_headers) is Some && !all_legal(to_map_spec(self.structured_headers)->Some_0) ==> r is Err, // @illegal_declared_header_refused
 //@ closure 0
@@ -28,6 +31,7 @@
         }
 //@ loop 0 invariant
             invariant
+                pairs0 == to_map_spec(self.structured_headers)->Some_0, to_map_spec(self.structured_headers) is Some,
                 hist == it.history@,
                 it.history@ + IteratorSpec::remaining(&it.iter) == pairs0, // @inv_iterating_the_declared_pairs_in_order
                 all_legal(it.history@), // @inv_every_pair_so_far_was_legal
@@ -36,6 +40,12 @@
             let ghost h0 = it.history@;
             let ghost kv = (key, value);
             proof { hist = hist.push(kv); }
+            proof {
+                // the pair taken now is one of the declared pairs: if it is not legal, not all of them are
+                assert(pairs0[h0.len() as int] == kv) by {
+                    assert((h0.push(kv) + IteratorSpec::remaining(&it.iter))[h0.len() as int] == kv);
+                }
+            }
             proof {
                 assert(declared(h0.push(kv)) =~= declared(h0).push((header_name_norm(key@), value@)));
                 assert(declared(h0).push((header_name_norm(key@), value@)).drop_last() =~= declared(h0));
